@@ -1,5 +1,7 @@
-import GopatchModel.FileM
+import GopatchModel.Spec.Sound
+import GopatchModel.Spec.Traverse
 namespace Gopatch.C02
+open Gopatch
 
 /-- An `identifier` metavariable binds only a (non-nil) `*ast.Ident`, an `expression`
 metavariable only a non-nil pointer whose type implements `ast.Expr`. -/
@@ -12,6 +14,20 @@ theorem metavar_kind (k : Kind) (name : String) (g : V) (d d' : Data)
   · rename_i hc
     simp only [Bool.or_eq_true, Bool.not_eq_true', not_or, Bool.not_eq_false, Bool.not_eq_true] at hc
     exact ⟨hc.1, hc.2⟩
+
+/-- an identifier metavariable stands for a single identifier only -/
+theorem ident_kind_is_ident (g : V) (h : kindOK .ident g = true) (hn : g.isNil = false) :
+    ∃ id fs, g = .ptr "ast.Ident" id fs := by
+  cases g <;> simp [kindOK, V.isNil] at h hn
+  rename_i t id fs
+  exact ⟨id, fs, by rw [h]⟩
+
+/-- an expression metavariable stands for a single expression node only -/
+theorem expr_kind_is_expr (g : V) (h : kindOK .expr g = true) (hn : g.isNil = false) :
+    ∃ t id fs, g = .ptr t id fs ∧ isExprType t = true := by
+  cases g <;> simp [kindOK, V.isNil] at h hn
+  rename_i t id fs
+  exact ⟨t, id, fs, rfl, h⟩
 
 /-- A second occurrence of a bound metavariable succeeds only on code that the captured
 value's matcher accepts, and never changes the bindings. -/
@@ -26,5 +42,52 @@ theorem metavar_consistent (k : Kind) (name : String) (g c : V) (d d' : Data)
     · rename_i he
       exact ⟨he, by simpa using h.symm⟩
     · simp at h
+
+/-- **One substitution for the whole pattern.** If the pattern matches, every occurrence of a
+metavariable — anywhere in the pattern, at any depth — stands for code accepted by the matcher
+of the *same* captured value `σ(name)`; names that are not declared are not metavariables at all. -/
+theorem occurrences_agree (mt : Meta) (σ : Subst) (id : Nat) (fs : List V) (g : V) (k : Kind)
+    (hk : mt.look (identName fs) = some k) (hi : Inst mt σ (.ptr "ast.Ident" id fs) g) :
+    ∃ c, σ.lookup (identName fs) = some c ∧ eqvM c g = true ∧ kindOK k g = true ∧ g.isNil = false := by
+  cases hi with
+  | ignoredPtr _ _ _ _ h1 => simp [ignoredPtr] at h1
+  | metavar _ _ k' _ c hk' hko hn hl he =>
+    rw [hk] at hk'; cases hk'
+    exact ⟨c, hl, he, hko, hn⟩
+  | forDots _ _ _ k' _ _ _ _ _ hfd => simp [forDotsKeyOf] at hfd
+  | ptr _ _ id' _ gs hnone _ _ =>
+    rw [hnone rfl] at hk; cases hk
+
+/-- a name that is not declared in the @@ section is ordinary code: it matches only an
+identifier with the same name -/
+theorem undeclared_is_code (mt : Meta) (σ : Subst) (id : Nat) (p0 o0 : V) (name : String) (g : V)
+    (hk : mt.look name = none) (hi : Inst mt σ (.ptr "ast.Ident" id [p0, .str name, o0]) g) :
+    ∃ id' p1 o1, g = .ptr "ast.Ident" id' [p1, .str name, o1] := by
+  cases hi with
+  | ignoredPtr _ _ _ _ h1 => simp [ignoredPtr] at h1
+  | metavar _ _ k _ c hk' => simp [identName, hk] at hk'
+  | forDots _ _ _ k' _ _ _ _ _ hfd => simp [forDotsKeyOf] at hfd
+  | ptr _ _ id' _ gs _ _ hl =>
+    cases hl with
+    | cons _ g1 _ gs1 h1 hl1 =>
+      cases hl1 with
+      | cons _ g2 _ gs2 h2 hl2 =>
+        cases hl2 with
+        | cons _ g3 _ gs3 h3 hl3 =>
+          cases hl3
+          cases h2
+          exact ⟨id', g1, g3, rfl⟩
+
+/-- bindings made while trying one node never influence another node: every node of the file is
+tried with the same incoming data, so whether (and with which bindings) a node is a site is a
+function of that node alone -/
+theorem attempts_independent (c : Change) (d : Data) (id : Nat) (fs : List V) :
+    (sitesFields (nodeMatch c d) id 0 fs).map (·.data) = (nodesL fs).filterMap (nodeMatch c d) :=
+  sitesFields_data (nodeMatch c d) fs id 0
+
+/-- a failed attempt leaves no trace: the result of trying nodes `a ++ b` is the result of
+trying `a` followed by the result of trying `b` -/
+theorem attempts_compose (nm : V → Option Data) (a b : List V) :
+    (a ++ b).filterMap nm = a.filterMap nm ++ b.filterMap nm := List.filterMap_append
 
 end Gopatch.C02
